@@ -27,6 +27,8 @@ static const uint64_t S_rec[8] = {0, 0, 0, 0, 0, 0, 1, 2}; static const uint64_t
 static const uint64_t S_rec[4] = {0, 0, 3, 3}; static const uint64_t S_cnt[4] = {1, 1, 1, 1}; static const uint64_t S_dfs[4] = {0, 1, 3, 2};
 #elif STRUCT == 5 /* N=5 multi (D=2): 4 -> {2,3}, 3 -> {1,2}, 2 -> {0,1}, 1 -> {0}, 0 self */
 static const uint64_t S_rec[10] = {0, 0, 0, 0, 0, 1, 1, 2, 2, 3}; static const uint64_t S_cnt[5] = {1, 1, 2, 2, 2}; static const uint64_t S_dfs[5] = {0, 1, 2, 3, 4};
+#elif STRUCT == 6 /* N=3 multi (D=2): 2 -> {0,1}; 0 and 1 terminal (either may be higher than node 2: lake spill neighbour) */
+static const uint64_t S_rec[6] = {0, 0, 1, 1, 0, 1}; static const uint64_t S_cnt[3] = {1, 1, 2}; static const uint64_t S_dfs[3] = {0, 1, 2};
 #endif
 
 /* REROUTE: the routes change between the two steps (ROUNDS must be 2); the second step runs on structure T_* */
